@@ -82,6 +82,13 @@ CHECKS["C11"] = dict(
     note="Bounds: HillClimb n=3, max_iter<=3 (thorough n=4 max_iter<=2); Exhaustive n=2 all-symbolic, n=3 with 4 symbolic scores; Chow-Liu n<=4. "
          "Mutual-information computation (sklearn) is outside. networkx.from_pandas_adjacency and math.isnan are stubbed for symbolic weights.",
     ref="5/C11")
+CHECKS["C13"] = dict(
+    text="BayesianNetwork.do/DAG.do and CausalInference.query (ve and bp back-ends; default adjustment set, every enumerated back-door set, the minimal "
+         "set) run with all CPD entries symbolic; each returned entry is shown equal to the truncated factorisation written from the harness's own "
+         "symbols; do() is checked edge-by-edge and entry-by-entry (other CPDs untouched, original untouched). The back-door/front-door validity "
+         "tests and enumerations are compared, on every DAG with <=4 nodes and every (X,Y,Z among non-descendants), with the path-based criterion "
+         "evaluated by the d-separation oracle on the graph with X's outgoing edges removed.",
+    note="Bounds: <=4 nodes, do-sets of size <=2, positive entries, string node names; one recorded known finding (joint interventions).", ref="5/C13")
 
 NOT_APPLICABLE = {
     "C19": "statistic, dof and p-value are produced inside pandas.groupby / numpy.bincount / scipy.stats.chi2_contingency / chi2.cdf "
